@@ -85,8 +85,9 @@ func genC02(seed uint64, tier string) *plan.Plan {
 		case x < 10:
 			pl.Ops = append(pl.Ops, plan.Op{K: "dataunk", A: int64(9 + r.IntN(3)), B: int64(r.IntN(nT+1) - 1), C: int64(r.Uint64() >> 1)})
 		case x < 11:
-			op := plan.Op{K: "data", A: int64(r.IntN(nT)), B: 1, C: int64(r.Uint64() >> 1), D: 20}
-			op.F = []plan.Op{{K: "count", A: int64(1 + r.IntN(2))}}
+			op := plan.Op{K: "data", A: int64(r.IntN(nT)), B: int64(1 + r.IntN(4)), C: int64(r.Uint64() >> 1), D: 20}
+			// the wrong field count in every record of the set, or in one of them (first, middle, last)
+			op.F = []plan.Op{{K: "count", A: int64(1 + r.IntN(2)), B: int64(r.IntN(5))}}
 			pl.Ops = append(pl.Ops, op)
 		default:
 			if nT < 5 {
